@@ -1,0 +1,104 @@
+//! Verification seam (compiled only with `--cfg metrics_verif`): the subset of `tokio::net` that
+//! the HTTP listener uses, over the simulated network of `metrics::__verif::net`. Readiness is
+//! polled: a pending operation re-schedules its task immediately.
+use std::io;
+use std::net::SocketAddr;
+use std::pin::Pin;
+use std::task::{Context, Poll};
+
+use metrics::__verif::net::backend;
+use tokio::io::{AsyncRead, AsyncWrite, ReadBuf};
+
+fn no_backend() -> io::Error {
+    io::Error::new(io::ErrorKind::Other, "no simulated network installed")
+}
+
+pub struct TcpListener(u64);
+
+impl TcpListener {
+    pub fn bind_simulated(addr: SocketAddr) -> io::Result<Self> {
+        Ok(TcpListener(backend().ok_or_else(no_backend)?.listen(addr)?))
+    }
+
+    pub async fn accept(&self) -> io::Result<(TcpStream, SocketAddr)> {
+        std::future::poll_fn(|cx| {
+            let b = match backend() {
+                Some(b) => b,
+                None => return Poll::Ready(Err(no_backend())),
+            };
+            match b.accept(self.0) {
+                Ok((id, peer)) => Poll::Ready(Ok((TcpStream(id), peer))),
+                Err(ref e) if e.kind() == io::ErrorKind::WouldBlock => {
+                    cx.waker().wake_by_ref();
+                    Poll::Pending
+                }
+                Err(e) => Poll::Ready(Err(e)),
+            }
+        })
+        .await
+    }
+}
+
+pub struct TcpStream(u64);
+
+impl TcpStream {
+    pub fn peer_addr(&self) -> io::Result<SocketAddr> {
+        backend().ok_or_else(no_backend)?.stream_peer(self.0)
+    }
+}
+
+impl AsyncRead for TcpStream {
+    fn poll_read(self: Pin<&mut Self>, cx: &mut Context<'_>, buf: &mut ReadBuf<'_>) -> Poll<io::Result<()>> {
+        let b = match backend() {
+            Some(b) => b,
+            None => return Poll::Ready(Err(no_backend())),
+        };
+        match b.stream_read(self.0, buf.initialize_unfilled()) {
+            Ok(n) => {
+                buf.advance(n);
+                Poll::Ready(Ok(()))
+            }
+            Err(ref e) if e.kind() == io::ErrorKind::WouldBlock || e.kind() == io::ErrorKind::Interrupted => {
+                cx.waker().wake_by_ref();
+                Poll::Pending
+            }
+            Err(e) => Poll::Ready(Err(e)),
+        }
+    }
+}
+
+impl AsyncWrite for TcpStream {
+    fn poll_write(self: Pin<&mut Self>, cx: &mut Context<'_>, buf: &[u8]) -> Poll<io::Result<usize>> {
+        let b = match backend() {
+            Some(b) => b,
+            None => return Poll::Ready(Err(no_backend())),
+        };
+        match b.stream_write(self.0, buf) {
+            Ok(n) => Poll::Ready(Ok(n)),
+            Err(ref e) if e.kind() == io::ErrorKind::WouldBlock || e.kind() == io::ErrorKind::Interrupted => {
+                cx.waker().wake_by_ref();
+                Poll::Pending
+            }
+            Err(e) => Poll::Ready(Err(e)),
+        }
+    }
+
+    fn poll_flush(self: Pin<&mut Self>, _cx: &mut Context<'_>) -> Poll<io::Result<()>> {
+        Poll::Ready(Ok(()))
+    }
+
+    fn poll_shutdown(self: Pin<&mut Self>, _cx: &mut Context<'_>) -> Poll<io::Result<()>> {
+        if let Some(b) = backend() {
+            b.close(self.0);
+        }
+        Poll::Ready(Ok(()))
+    }
+}
+
+impl Drop for TcpStream {
+    fn drop(&mut self) {
+        if let Some(b) = backend() {
+            b.close(self.0);
+        }
+    }
+}
